@@ -200,6 +200,30 @@ def run(rep, tier, seed):
                     rep.fail('decoded-tags-after-deriving-siblings', 'decoding with the type object after sibling types were derived '
                              'from it and re-encoding gives %s, not the input %s' % (b3.hex()[:80], b.hex()[:80]),
                              dict(replay, bytes=b.hex()))
+            # --- strings written in segments (maxChunkSize): the type's tags still head the encoding, the segments carry
+            # the universal tag of the string kind, and the type's own decoder accepts it
+            if defMode and gen.base_of(t)[0] in ('str', 'bits') and not siblings:
+                for dm2 in (True, False):
+                    for ch in (1, 3):
+                        rc = codec.impl_encode('ber', t, v, dm2, ch)
+                        rep.count('chunked-strings')
+                        if rc[0] != 'ok':
+                            rep.fail('encode-refused:' + str(rc[1]), 'encoder refused a valid value (maxChunkSize=%d)' % ch,
+                                     dict(replay, defMode=dm2, maxChunkSize=ch))
+                            continue
+                        try:
+                            gotc = walk_idents(rc[1], len(exp)) if exp else []
+                        except Exception:  # noqa
+                            gotc = None
+                        if exp and (gotc is None or [(c, n_) for c, _, n_ in gotc] != exp):
+                            rep.fail('identifiers-differ', 'segmented form: identifier octets %r, type tags %r' % (gotc, exp),
+                                     dict(replay, bytes=rc[1].hex(), defMode=dm2, maxChunkSize=ch))
+                            continue
+                        dc = codec.impl_decode('ber', t, rc[1], schema)
+                        if dc[0] != 'ok' or not gen.val_equiv(t, dc[1], v) or dc[2] != b'':
+                            sig = 'E1-stray-eoo' if (not dm2 and wire.e1_applies(t, v)) else 'own-type-rejects'
+                            rep.fail(sig, 'decoding the segmented form (maxChunkSize=%d) with the encoding type: %r' % (ch, dc[:3]),
+                                     dict(replay, bytes=rc[1].hex(), defMode=dm2, maxChunkSize=ch))
             # --- a member declared with this type: a value object of a type whose tags differ (one tagging changed, or
             # outer taggings left out) is refused by the container, or else the declared tags are what goes on the wire;
             # and isSuperTagSetOf is the prefix relation it documents
